@@ -293,16 +293,27 @@ def service_level(rep, tier, r, known, Recorder, viol):
       return _apply(serv_, holder_, rpc_)
     apply(serv, holder, ('CreateStudy', 1, 1, False, 'SS_ACTIVE', [(1, True)]))
     deleted_newest = False
-    for _ in range(r.randrange(2, 9)):
+    directed = len(objs) < (8 if tier == 'quick' else 40)
+    if directed:
+      # a queue of REQUESTED trials (added by a user) that does not cover the next request: the same operation assigns them to the
+      # worker AND calls the algorithm, which must be shown them as ACTIVE
+      for _ in range(r.choice([1, 2])):
+        apply(serv, holder, ('CreateTrial', 1, 1, 50, 'REQUESTED', [], []))
+      rep.count('hosted_pool_smaller_than_request')
+    for step_i in range(r.randrange(2, 9)):
       snap = svc.snapshot(serv)[0][0][1]
       trials = snap['trials']
       ids = [t['id'] for t in trials]
       u = r.random()
+      if directed and step_i == 0:
+        u = 0.0
       if u < 0.45 or not ids:
         c = r.choice([1, 2])
         own = [t for t in trials if t['state'] == 'ACTIVE' and t['client'] == c]
         pool = [t for t in trials if t['state'] == 'REQUESTED']
         count = r.choice([1, 2, 3])
+        if directed and step_i == 0:
+          count = len(pool) + len(own) + 1
         before = len(log)
         world = [(t['id'], 'C' if t['state'] in ('SUCCEEDED', 'INFEASIBLE') else 'A' if t['state'] == 'ACTIVE' or (t['state'] == 'REQUESTED' and False) else 'R') for t in trials]
         # REQUESTED pool trials are assigned (ACTIVE) before Pythia is called
@@ -341,6 +352,34 @@ def service_level(rep, tier, r, known, Recorder, viol):
         delivered[i] = k
       if any(s == 'C' and i not in delivered for i, s in world):
         viol('hosted policy did not deliver a completed trial', {'history': hist, 'request': k, 'delivered': sorted(delivered)}, deleted_newest or not monotone(hist[:k + 1]))
+  # ---- large studies: more trials than any page / batch size a handler could apply (the supporter reads them with
+  # one ListTrials call); both policy kinds, both datastores in the thorough tier
+  class FF(pythia.PolicyFactory):
+    def __call__(self, problem, algorithm, supporter, study_name):
+      return designer_policy.DesignerPolicy(supporter, lambda p, **kw: Recorder(p, log), use_seeding=False)
+  for kind, fac_ in (('partial', F()), ('fresh', FF())):
+    for be_ in (['ram'] if tier == 'quick' else ['ram', 'sqlmem']):
+      big = (1003 + r.randrange(40)) if tier == 'quick' else r.choice([1003, 2051, 5007]) + r.randrange(40)
+      serv, holder, proxy = svc.make_servicer(be_)
+      serv.default_pythia_service = pythia_service.PythiaServicer(serv, fac_)
+      del log[:]
+      svc.apply_rpc(serv, holder, ('CreateStudy', 1, 1, False, 'SS_ACTIVE', [(1, True)]))
+      for _ in range(big):
+        svc.apply_rpc(serv, holder, ('CreateTrial', 1, 1, 50, 'SUCCEEDED', [], [(1, 1)]))
+      svc.apply_rpc(serv, holder, ('SuggestTrials', 1, 1, 1, 2, ('deliver', [], [], [])))
+      svc.apply_rpc(serv, holder, ('CompleteTrial', 1, 1, big + 1, [(1, 2)], False))
+      svc.apply_rpc(serv, holder, ('SuggestTrials', 1, 1, 2, 1, ('deliver', [], [], [])))
+      got = list(log)
+      rep.case({'hosted_large_study': big, 'policy': kind, 'backend': be_, 'updates': [(len(d), a) for d, a in got]}, True)
+      rep.count('hosted_large_' + kind)
+      want = [(list(range(1, big + 1)), []),
+              ((list(range(1, big + 2)) if kind == 'fresh' else [big + 1]), [big + 2])]
+      if [(sorted(d), sorted(a)) for d, a in got] != want:
+        miss = [sorted(set(w[0]) - set(g[0]))[:5] for w, g in zip(want, got)]
+        viol('hosted %s policy on a study of %d trials (%s): updates are not [all completed; then the new completed trial + '
+             'the ACTIVE one]' % (kind, big, be_),
+             {'trials': big, 'policy': kind, 'backend': be_, 'updates_got_sizes': [(len(d), a) for d, a in got],
+              'first_missing_completed': miss}, False)
   bad = C.run_cases('C12', 'svc', HDR + 'Definition ck (c : list (bool * request) * list (list nat * list nat)) := list_eqb upd_eqb (serve_all [] (fst c)) (snd c).\n', cases, 'ck')
   rep.disagreements += len(bad)
   msg = None
